@@ -46,6 +46,7 @@ type recRecorder struct {
 // c16World is one container with all handles needed to inject faults.
 type c16World struct {
 	kind       string // router, group-add, group-new
+	label      string // the container as enumerated (group-new-extra is judged like group-new)
 	opt        bool
 	env        *mon.Env
 	serve      http.Handler
@@ -89,13 +90,18 @@ func buildC16(kind string, opt bool) *c16World {
 		r = w.env.NewRouter("r", o...)
 		g.Add(mux.NewPathVersion("", "api"), r)
 		w.serve, w.g404, w.prefix = g, w.env.Group404, "/api"
-	case "group-new": // the router inherits the group's recovery option
+	case "group-new", "group-new-extra": // the router inherits the group's recovery option (also when it brings unrelated options of its own)
 		o := []mux.Option{mux.WithTrace(w.trace)}
 		if opt {
 			o = append(o, recOpt(w.groupRec))
 		}
 		g := w.env.NewGroup(o...)
-		r = g.New("r", mux.NewPathVersion("", "api"))
+		if kind == "group-new-extra" {
+			r = g.New("r", mux.NewPathVersion("", "api"), mux.WithURLDomain("https://u.example"), mux.WithLock(true), mux.WithAllowedCORS(60))
+		} else {
+			r = g.New("r", mux.NewPathVersion("", "api"))
+		}
+		w.kind, w.label = "group-new", kind
 		w.routerRec = w.groupRec
 		w.serve, w.g404, w.prefix = g, w.env.Group404, "/api"
 	}
@@ -258,7 +264,7 @@ func (w *c16World) inject(c *Ctx, site c16Site, pv panicValue) {
 	if w.kind == "group-new" { // one shared recorder
 		newCalls = w.groupRec.calls - wg
 	}
-	det := map[string]any{"container": w.kind, "recovery_option": w.opt, "site": site.name, "value": pv.name, "request": site.method + " " + path,
+	det := map[string]any{"container": ifEmpty(w.label, w.kind), "recovery_option": w.opt, "site": site.name, "value": pv.name, "request": site.method + " " + path,
 		"escaped": o.Panicked, "escaped_value": fmt.Sprint(o.Panic), "recover_calls": newCalls}
 	pvCheck := pv
 	if pv.runtime && site.layer != "" {
@@ -338,7 +344,7 @@ func runtimeFault() any {
 func runC16(c *Ctx) {
 	sites := c16Sites()
 	n := 0
-	for _, kind := range []string{"router", "group-add", "group-new"} {
+	for _, kind := range []string{"router", "group-add", "group-new", "group-new-extra"} {
 		for _, opt := range []bool{true, false} {
 			w := buildC16(kind, opt)
 			for _, s := range sites {
@@ -359,7 +365,7 @@ func runC16(c *Ctx) {
 	c.ClassN("product_combinations_enumerated", n)
 	// random sequences mixing panicking and normal requests (pool reuse after recovery)
 	r := c.R
-	w := buildC16(ref.Pick(r, []string{"router", "group-add", "group-new"}), r.Chance(3, 4))
+	w := buildC16(ref.Pick(r, []string{"router", "group-add", "group-new", "group-new-extra"}), r.Chance(3, 4))
 	for k := 0; k < 60 && !c.Violated(); k++ {
 		if r.Chance(1, 3) {
 			id := fmt.Sprint(r.Intn(1000))
@@ -383,7 +389,7 @@ func init() {
 		Cases:      func(t string) int { return map[string]int{"quick": 1000, "thorough": 40000}[t] },
 		Run:        runC16,
 		Exhaustive: true,
-		Rule: "every case enumerates the complete product: 18 panic sites (route handler per method, automatic HEAD, GET and HEAD handlers that write a header, a status and body bytes before panicking, OPTIONS, 405, 404, TRACE, each middleware layer Use/prefix/registration before and after next, CallFunc, group not-found, CallFunc for group not-found) x 5 panic values (string, error, struct, genuine runtime.Error, http.ErrAbortHandler) x 3 containers (Router, Group+Add-ed router with its own recovery, Group.New router inheriting the group's option) x recovery on/off; after every fault a normal request and a 404 are checked; then a random sequence of 60 faulty/normal requests; " +
+		Rule: "every case enumerates the complete product: 18 panic sites (route handler per method, automatic HEAD, GET and HEAD handlers that write a header, a status and body bytes before panicking, OPTIONS, 405, 404, TRACE, each middleware layer Use/prefix/registration before and after next, CallFunc, group not-found, CallFunc for group not-found) x 5 panic values (string, error, struct, genuine runtime.Error, http.ErrAbortHandler) x 4 containers (Router, Group+Add-ed router with its own recovery, Group.New router inheriting the group's option, the same with unrelated options of its own) x recovery on/off; after every fault a normal request and a 404 are checked; then a random sequence of 60 faulty/normal requests; " +
 			"non-trivial (distinct) = every (container, option, site, value) combination",
 		Floors: func(t string) map[string]int64 {
 			return map[string]int64{"recovered": 200, "passed_through": 200, "product_combinations_enumerated": 400, "random_sequence_fault": 100}
